@@ -8,6 +8,10 @@ From Coq Require Import Lia.
 Lemma check_methods_known_ok : check_methods_known = true.
 Proof. vm_compute. reflexivity. Qed.
 
+(* the shipped pattern sources are the ones the model implements: ^\w+\Z, \s, [+/-] *)
+Lemma check_patterns_known_ok : check_patterns_known = true.
+Proof. vm_compute. reflexivity. Qed.
+
 (* where the dispatch of LuceneCheck.check lands for each concrete class *)
 Definition handler_spec (c : cls) : option cls :=
   match c with
@@ -147,23 +151,12 @@ Section CheckFacts.
 
   (* ---- field names *)
 
-  Lemma word_plus_tail_split s :
-    word_plus_tail isw s = forallb isw s || words_then_nl isw s.
-  Proof.
-    induction s as [|c s IH]; [reflexivity|]. simpl. rewrite IH.
-    destruct (isw c), (forallb isw s), (words_then_nl isw s), (N.eqb c c_nl), s; reflexivity.
-  Qed.
-
-  (* what the regular expression accepts: a valid name, or a valid name plus one final newline *)
-  Lemma field_name_ok_split n :
-    field_name_ok isw n = valid_field_name isw n || nl_name isw n.
-  Proof.
-    destruct n as [|c s]; [reflexivity|]. simpl. rewrite word_plus_tail_split.
-    destruct (isw c); reflexivity.
-  Qed.
+  (* the regular expression accepts exactly the valid names *)
+  Lemma field_name_ok_valid n : field_name_ok isw n = valid_field_name isw n.
+  Proof. reflexivity. Qed.
 
   Lemma valid_field_name_ok n : valid_field_name isw n = true -> field_name_ok isw n = true.
-  Proof. intros H. rewrite field_name_ok_split, H. reflexivity. Qed.
+  Proof. intros H. rewrite field_name_ok_valid. exact H. Qed.
 
   (* ---- acceptance *)
 
@@ -171,12 +164,10 @@ Section CheckFacts.
   Local Arguments isinstance_any : simpl never.
   Local Arguments field_name_ok : simpl never.
   Local Arguments valid_field_name : simpl never.
-  Local Arguments nl_name : simpl never.
   Local Arguments last_isinstance : simpl never.
   Local Arguments has_space : simpl never.
   Local Arguments has_invalid_char : simpl never.
   Local Arguments zealous : simpl never.
-  Local Arguments recurses : simpl never.
   Local Arguments parent_is : simpl never.
 
   Lemma walk_all_done ps l :
@@ -215,51 +206,42 @@ Section CheckFacts.
       split_andb. rewrite H, H0. reflexivity.
     - (* SearchField *)
       simpl in *. split_andb.
-      rewrite (valid_field_name_ok _ H), field_expr_fields_value, H1.
-      destruct recurses_table as [-> _]. simpl.
+      rewrite (valid_field_name_ok _ H), field_expr_fields_value, H1. simpl.
       rewrite (IHt (ps ++ [CSearchField])); [reflexivity|]. rewrite last_opt_snoc. exact H0.
     - (* Grp *)
       destruct k; simpl in *; split_andb.
-      + rewrite last_isinstance_searchfield, H.
-        destruct recurses_table as [_ [-> _]]. simpl.
+      + rewrite last_isinstance_searchfield, H. simpl.
         rewrite (IHt (ps ++ [CGroup])); [reflexivity|]. rewrite last_opt_snoc. exact H0.
-      + rewrite last_isinstance_searchfield, H.
-        destruct recurses_table as [_ [_ [-> _]]]. simpl.
+      + rewrite last_isinstance_searchfield, H. simpl.
         rewrite (IHt (ps ++ [CFieldGroup])); [reflexivity|]. rewrite last_opt_snoc. exact H0.
     - (* Range: not inspected *)
-      destruct recurses_table as [_ [_ [_ [_ [_ [_ [_ [_ [_ [_ [_ [_ [Hr _]]]]]]]]]]]]].
-      simpl. rewrite Hr. reflexivity.
+      reflexivity.
     - (* Fuzzy *)
-      destruct recurses_table as [_ [_ [_ [_ [_ [_ [_ [_ [_ [_ [_ [_ [_ [Hr _]]]]]]]]]]]]]].
-      simpl in *. split_andb. rewrite Hr, isinstance_word, H, H0. reflexivity.
+      simpl in *. split_andb. rewrite isinstance_word, H, H0. reflexivity.
     - (* Proximity *)
-      destruct recurses_table as [_ [_ [_ [_ [_ [_ [_ [_ [_ [_ [_ [_ [_ [_ Hr]]]]]]]]]]]]]].
-      simpl in *. split_andb. rewrite Hr, isinstance_phrase, H. reflexivity.
+      simpl in *. split_andb. rewrite isinstance_phrase, H. reflexivity.
     - (* Boost *)
-      destruct recurses_table as [_ [_ [_ [-> _]]]]. simpl in *.
+      simpl in *.
       rewrite (IHt (ps ++ [CBoost])); [reflexivity|]. rewrite last_opt_snoc. exact Hwf.
     - (* Op *)
-      destruct recurses_table as [_ [_ [_ [_ [Hr _]]]]].
       assert (Hw : walk (ps ++ [cls_of_opk k]) ops = done []).
       { apply walk_all_done. simpl in Hwf. rewrite forallb_forall in Hwf.
         rewrite Forall_forall in H. apply Forall_forall. intros c Hc.
         apply (H c Hc). rewrite last_opt_snoc. apply Hwf. exact Hc. }
-      destruct k; simpl; rewrite Hr; simpl in Hw; rewrite Hw; reflexivity.
+      destruct k; simpl; simpl in Hw; rewrite Hw; reflexivity.
     - (* Unary *)
-      destruct recurses_table as [_ [_ [_ [_ [_ [Hp [Hn [Hh _]]]]]]]].
       assert (Hc : check t (ps ++ [cls_of_unk k]) = done []).
       { apply IHt. rewrite last_opt_snoc. simpl in Hwf. split_andb. assumption. }
       destruct k; simpl in *; split_andb.
-      + rewrite Hp, Hc. reflexivity.
-      + rewrite Hn, Hc. unfold not_operator. rewrite last_isinstance_or.
+      + rewrite Hc. reflexivity.
+      + rewrite Hc. unfold not_operator. rewrite last_isinstance_or.
         rewrite andb_true_r in H. rewrite H. reflexivity.
-      + rewrite Hh, Hc. unfold not_operator. rewrite last_isinstance_or.
+      + rewrite Hc. unfold not_operator. rewrite last_isinstance_or.
         rewrite andb_true_r in H. rewrite H. reflexivity.
     - (* ORange *)
-      destruct recurses_table as [_ [_ [_ [_ [_ [_ [_ [_ [Hr _]]]]]]]]].
       assert (Hc : check t (ps ++ [cls_of_ork k]) = done []).
       { apply IHt. rewrite last_opt_snoc. simpl in Hwf. split_andb. assumption. }
-      destruct k; simpl in *; rewrite Hr, Hc; reflexivity.
+      destruct k; simpl in *; rewrite Hc; reflexivity.
     - (* NoneItem *)
       discriminate.
   Qed.
@@ -271,11 +253,10 @@ Section CheckFacts.
 
   Lemma defect_detected_here d k ps :
     has_defect isw isp (last_opt ps) d k = true ->
-    name_defect_hidden isw d k = false ->
     In (msg_of_defect k) (r_msgs (check d ps)).
   Proof.
-    intros Hd Hh.
-    destruct k; destruct d as [[]| |[]| | | | |[]|[]|[]|]; try discriminate Hd; simpl in Hd, Hh.
+    intros Hd.
+    destruct k; destruct d as [[]| |[]| | | | |[]|[]|[]|]; try discriminate Hd; simpl in Hd.
     - (* space in word *)
       eapply own_msgs_in_check; [rewrite handler_concrete; reflexivity|].
       simpl. rewrite Hd. left. reflexivity.
@@ -291,7 +272,7 @@ Section CheckFacts.
     - (* invalid field name *)
       eapply own_msgs_in_check; [rewrite handler_concrete; reflexivity|].
       apply negb_true_iff in Hd.
-      simpl. rewrite field_name_ok_split, Hd, Hh. left. reflexivity.
+      simpl. rewrite field_name_ok_valid, Hd. left. reflexivity.
     - (* non-value field expression *)
       eapply own_msgs_in_check; [rewrite handler_concrete; reflexivity|].
       simpl. rewrite field_expr_fields_value, Hd. apply in_or_app. right. left. reflexivity.
@@ -304,42 +285,32 @@ Section CheckFacts.
   Qed.
 
   Lemma defect_detected_in_context d k :
-    name_defect_hidden isw d k = false ->
     forall C ps,
       has_defect isw isp (hole_parent_from (last_opt ps) C) d k = true ->
       In (msg_of_defect k) (r_msgs (check (plug C d) ps)).
   Proof.
-    intros Hh.
     destruct recurses_table as [Rsf [Rg [Rfg [Rb [Rop [Rp [Rn [Rpr _]]]]]]]].
-    induction C as [|m n c IH|g m c IH|m c IH f i|o m l c IH r|u m c IH]; intros ps Hd; simpl in *.
+    induction C as [|m n c IH|g m c IH|m c IH f i|o m l c IH r|u m c IH]; intros ps Hd; simpl in Hd; simpl plug.
     - apply defect_detected_here; assumption.
     - eapply child_msgs_in_check;
         [rewrite handler_concrete; reflexivity|exact Rsf|left; reflexivity|].
       apply IH. rewrite last_opt_snoc. exact Hd.
-    - eapply child_msgs_in_check;
-        [rewrite handler_concrete; reflexivity| |left; reflexivity|].
-      + destruct g; assumption.
-      + apply IH. rewrite last_opt_snoc. exact Hd.
+    - destruct g;
+        (eapply child_msgs_in_check;
+         [rewrite handler_concrete; reflexivity|assumption|left; reflexivity
+         |apply IH; rewrite last_opt_snoc; exact Hd]).
     - eapply child_msgs_in_check;
         [rewrite handler_concrete; reflexivity|exact Rb|left; reflexivity|].
       apply IH. rewrite last_opt_snoc. exact Hd.
-    - eapply child_msgs_in_check;
-        [rewrite handler_concrete; reflexivity| |apply in_or_app; right; left; reflexivity|].
-      + destruct o; exact Rop.
-      + apply IH. rewrite last_opt_snoc. exact Hd.
-    - eapply child_msgs_in_check;
-        [rewrite handler_concrete; reflexivity| |left; reflexivity|].
-      + destruct u; assumption.
-      + apply IH. rewrite last_opt_snoc. exact Hd.
-  Qed.
-
-  (* the hidden shape really is let through by the field-name rule *)
-  Lemma hidden_name_passes m n e ps :
-    nl_name isw n = true -> ~ In MFieldName (r_msgs (own CSearchField (SearchField m n e) ps)).
-  Proof.
-    intros Hn. simpl. rewrite field_name_ok_split, Hn, orb_true_r. simpl.
-    destruct (negb (isinstance_any (cls_of e) field_expr_fields)); simpl; intros [H|H];
-      try discriminate H; try destruct H.
+    - destruct o;
+        (eapply child_msgs_in_check;
+         [rewrite handler_concrete; reflexivity|exact Rop
+         |simpl; apply in_or_app; right; left; reflexivity
+         |apply IH; rewrite last_opt_snoc; exact Hd]).
+    - destruct u;
+        (eapply child_msgs_in_check;
+         [rewrite handler_concrete; reflexivity|assumption|left; reflexivity
+         |apply IH; rewrite last_opt_snoc; exact Hd]).
   Qed.
 
 End CheckFacts.
